@@ -1,9 +1,613 @@
-//! C12 — (stub; not built yet)
+//! C12 — Greedy is LPT list scheduling; KarmarkarKarp is the differencing method.
+//!
+//! ops (`w` = integer weights in decimal, `p` = initial contents of the id array):
+//! * `greedy <i64|f64> <k> <n> <w…> <m> <p…>`  (`f64`: the same integers, converted exactly with
+//!   `as f64`, and Greedy runs on `Vec<f64>`)
+//!   out: `ok <ids>` | `lenmismatch` | `panic …` | `err …`
+//! * `kk <k> <ids|loads> <n> <w…> <m> <p…>`
+//!   out: `ok ids <ids>` | `ok loads <part loads, ascending>` | `lenmismatch` | `panic …` | `err …`
+//!
+//! Greedy and two-way KarmarkarKarp are deterministic (their sort/heap keys contain the index),
+//! so ids are compared exactly.  k-way KarmarkarKarp (k ≥ 3) sorts the combined row by weight
+//! only with an *unstable* sort: where two equal sums meet, the order is implementation-defined.
+//! The generator classifies each k-way case with a value-level simulation (`kk_tie_sensitive`)
+//! and asks for exact ids on the tie-insensitive cases and for the sorted loads (tie-invariant)
+//! on the others.  `run_op` obeys the `cmp` field of the line.
 
 use crate::common::*;
+use coupe::Partition as _;
+use std::collections::BinaryHeap;
 
-pub fn generate(_ctx: &mut Ctx) {}
+/// usual initial filler of the id array: a cell the algorithm did not write stays visible, and
+/// `1 - partition[a]` on such a cell overflows (overflow checks are on)
+const FILL: usize = usize::MAX;
+
+// ------------------------------------------------------------------ protocol
+
+enum Op {
+    Greedy { float: bool, k: usize, ws: Vec<i64>, p: Vec<usize> },
+    Kk { k: usize, loads: bool, ws: Vec<i64>, p: Vec<usize> },
+}
+
+fn fmt_arrays(ws: &[i64], p: &[usize]) -> String {
+    let mut s = format!("{}", ws.len());
+    if !ws.is_empty() {
+        s.push(' ');
+        s.push_str(&join(ws));
+    }
+    s.push_str(&format!(" {}", p.len()));
+    if !p.is_empty() {
+        s.push(' ');
+        s.push_str(&join(p));
+    }
+    s
+}
+
+fn greedy_op(float: bool, k: usize, ws: &[i64], p: &[usize]) -> String {
+    format!("greedy {} {} {}", if float { "f64" } else { "i64" }, k, fmt_arrays(ws, p))
+}
+
+fn kk_op(k: usize, loads: bool, ws: &[i64], p: &[usize]) -> String {
+    format!("kk {} {} {}", k, if loads { "loads" } else { "ids" }, fmt_arrays(ws, p))
+}
+
+fn parse_arrays<'a>(it: &mut impl Iterator<Item = &'a str>) -> Option<(Vec<i64>, Vec<usize>)> {
+    let n: usize = it.next()?.parse().ok()?;
+    let mut ws = Vec::with_capacity(n.min(1 << 16));
+    for _ in 0..n {
+        ws.push(it.next()?.parse().ok()?);
+    }
+    let m: usize = it.next()?.parse().ok()?;
+    let mut p = Vec::with_capacity(m.min(1 << 16));
+    for _ in 0..m {
+        p.push(it.next()?.parse().ok()?);
+    }
+    // like the model's parser: nothing may follow
+    if it.next().is_some() {
+        return None;
+    }
+    Some((ws, p))
+}
+
+fn parse_op(op: &str) -> Option<Op> {
+    let mut it = op.split_whitespace();
+    match it.next()? {
+        "greedy" => {
+            let float = match it.next()? {
+                "i64" => false,
+                "f64" => true,
+                _ => return None,
+            };
+            let k: usize = it.next()?.parse().ok()?;
+            let (ws, p) = parse_arrays(&mut it)?;
+            if float && ws.iter().any(|w| w.unsigned_abs() >= 1 << 53) {
+                return None;
+            }
+            Some(Op::Greedy { float, k, ws, p })
+        }
+        "kk" => {
+            let k: usize = it.next()?.parse().ok()?;
+            let loads = match it.next()? {
+                "ids" => false,
+                "loads" => true,
+                _ => return None,
+            };
+            let (ws, p) = parse_arrays(&mut it)?;
+            Some(Op::Kk { k, loads, ws, p })
+        }
+        _ => None,
+    }
+}
+
+// ------------------------------------------------------------------ tie classification (generator side)
+
+/// Can the ids returned by k-way KarmarkarKarp on `ws` depend on how `sort_unstable_by` orders
+/// equal sums?  Value-level simulation of `kk.rs: kk` (not a call into coupe): rows of
+/// `(value, id)` with a side table `id -> real` ("this slot holds at least one real weight"),
+/// the heap ordered like `BinaryHeap<Vec<(T, usize)>>`, the combined row sorted *stably*.
+///
+/// A tie is two entries of the combined row with equal value.  It is harmless iff both
+/// entries are empty slots (`real == false`: exchanging them only renames two empty parts)
+/// and the row's maximum is positive (so slot 0, which decides heap comparisons, is not one of
+/// them).  Any other tie makes the case tie-sensitive.
+///
+/// Renaming empty slots is invisible as long as heap comparisons never look at a renamed id.
+/// Rows are compared lexicographically and all ids are distinct, so a comparison looks at ids
+/// only when two rows have the same slot-0 value, and then only at the slot-0 ids.  The
+/// simulation therefore remembers which ids took part in a harmless tie (`renamed`) and also
+/// answers "sensitive" when two rows of the heap have equal slot-0 values and one of the two
+/// slot-0 ids is such an id (second component of the result; rare).
+fn kk_tie_sensitive_why(ws: &[i64], k: usize) -> (bool, bool) {
+    let n = ws.len();
+    if k < 3 || n < 2 {
+        return (false, false);
+    }
+    let mut real = vec![false; n * k];
+    let mut renamed = vec![false; n * k];
+    let mut heap: BinaryHeap<Vec<(i64, usize)>> = BinaryHeap::with_capacity(n);
+    for (id, &w) in ws.iter().enumerate() {
+        real[id] = true;
+        heap.push((0..k).map(|p| (if p == 0 { w } else { 0 }, n * p + id)).collect());
+    }
+    while heap.len() >= 2 {
+        // a heap comparison decided by a renamed id?
+        let mut heads: Vec<(i64, bool)> = heap.iter().map(|r| (r[0].0, renamed[r[0].1])).collect();
+        heads.sort_unstable();
+        let mut i = 0;
+        while i < heads.len() {
+            let mut j = i;
+            let mut any = heads[i].1;
+            while j + 1 < heads.len() && heads[j + 1].0 == heads[i].0 {
+                j += 1;
+                any |= heads[j].1;
+            }
+            if j > i && any {
+                return (true, true);
+            }
+            i = j + 1;
+        }
+        let a = heap.pop().unwrap();
+        let b = heap.pop().unwrap();
+        // e_i = a_i + b_{k-1-i}, keeps a's id
+        let mut e: Vec<(i64, bool, usize)> = a
+            .iter()
+            .zip(b.iter().rev())
+            .map(|(x, y)| (x.0 + y.0, real[x.1] || real[y.1], x.1))
+            .collect();
+        e.sort_by(|x, y| y.0.cmp(&x.0));
+        let emax = e[0].0;
+        for w in e.windows(2) {
+            if w[0].0 == w[1].0 {
+                if w[0].1 || w[1].1 || emax <= 0 {
+                    return (true, false);
+                }
+                renamed[w[0].2] = true;
+                renamed[w[1].2] = true;
+            }
+        }
+        let emin = e[e.len() - 1].0;
+        for x in &e {
+            real[x.2] = x.1;
+        }
+        heap.push(e.iter().map(|x| (x.0 - emin, x.2)).collect());
+    }
+    (false, false)
+}
+
+fn kk_tie_sensitive(ws: &[i64], k: usize) -> bool {
+    kk_tie_sensitive_why(ws, k).0
+}
+
+// ------------------------------------------------------------------ oracle helpers (independent of the model)
+
+/// Loads of parts `0..k`; `None` if some id is `>= k`.
+fn part_loads(ws: &[i64], ids: &[usize], k: usize) -> Option<Vec<i64>> {
+    let mut l = vec![0i64; k];
+    for (w, &i) in ws.iter().zip(ids) {
+        if i >= k {
+            return None;
+        }
+        l[i] += *w;
+    }
+    Some(l)
+}
+
+/// LPT list scheduling, recomputed naively: weights in non-increasing order, each to the first
+/// currently lightest part.  (Any tie-breaking gives the same multiset of loads.)  Sorted.
+fn lpt_loads(ws: &[i64], k: usize) -> Vec<i64> {
+    let mut v = ws.to_vec();
+    v.sort();
+    v.reverse();
+    let mut l = vec![0i64; k];
+    for w in v {
+        let mut best = 0;
+        for j in 1..k {
+            if l[j] < l[best] {
+                best = j;
+            }
+        }
+        l[best] += w;
+    }
+    l.sort();
+    l
+}
+
+/// The number left after repeatedly replacing the two largest numbers by their difference.
+fn residue(ws: &[i64]) -> i64 {
+    let mut h: BinaryHeap<i64> = ws.iter().copied().collect();
+    while h.len() >= 2 {
+        let a = h.pop().unwrap();
+        let b = h.pop().unwrap();
+        h.push(a - b);
+    }
+    h.pop().unwrap_or(0)
+}
+
+// ------------------------------------------------------------------ run one op
+
+type Verdict = Option<(&'static str, String)>;
 
 pub fn run_op(ctx: &mut Ctx, op: &str) {
-    ctx.record(op.to_string(), "bad-op".into(), false);
+    let Some(parsed) = parse_op(op) else {
+        ctx.record(op.to_string(), "bad-op".into(), false);
+        return;
+    };
+    let (out, verdict, nontrivial) = match parsed {
+        Op::Greedy { float, k, ws, p } => run_greedy(float, k, &ws, &p),
+        Op::Kk { k, loads, ws, p } => run_kk(k, loads, &ws, &p),
+    };
+    let kind = if op.starts_with("greedy") { "greedy" } else { "kk" };
+    ctx.count(&format!("out_{}_{}", kind, out.split(' ').next().unwrap_or("")));
+    let idx = ctx.record(op.to_string(), out, nontrivial);
+    if let Some((sig, what)) = verdict {
+        ctx.fail(idx, sig, what);
+    }
+}
+
+fn run_greedy(float: bool, k: usize, ws: &[i64], p0: &[usize]) -> (String, Verdict, bool) {
+    let mut p = p0.to_vec();
+    let res = if float {
+        let v: Vec<f64> = ws.iter().map(|&w| w as f64).collect();
+        catch(|| coupe::Greedy { part_count: k }.partition(&mut p, v))
+    } else {
+        let v: Vec<i64> = ws.to_vec();
+        catch(|| coupe::Greedy { part_count: k }.partition(&mut p, v))
+    };
+    let lens_match = ws.len() == p0.len();
+    let nontrivial = lens_match && ws.len() >= 2 && k >= 2;
+    let (out, verdict): (String, Verdict) = match res {
+        Caught::Ok(Ok(())) => {
+            let mut v = None;
+            if !lens_match {
+                v = Some(("greedy-len-mismatch-ok", "Ok despite a length mismatch".to_string()));
+            } else if let Some(loads) = part_loads(ws, &p, k.max(1)) {
+                if k < 2 {
+                    if p.iter().any(|&i| i != 0) {
+                        v = Some(("greedy-k1-not-zero", format!("part_count {} but ids {:?}", k, p)));
+                    }
+                } else {
+                    // holds for all integers, negative ones included
+                    let mut got = loads;
+                    got.sort();
+                    let want = lpt_loads(ws, k);
+                    if got != want {
+                        v = Some((
+                            "greedy-not-lpt",
+                            format!("sorted loads {:?} but LPT gives {:?}", got, want),
+                        ));
+                    }
+                }
+            } else {
+                v = Some((
+                    "greedy-id-out-of-range",
+                    format!("an id >= {} in {:?}", k.max(1), p),
+                ));
+            }
+            (format!("ok {}", join(&p)), v)
+        }
+        Caught::Ok(Err(coupe::Error::InputLenMismatch { .. })) => {
+            let v = if lens_match {
+                Some(("greedy-spurious-lenmismatch", "InputLenMismatch on matching lengths".to_string()))
+            } else {
+                None
+            };
+            ("lenmismatch".to_string(), v)
+        }
+        Caught::Ok(Err(e)) => (format!("err {:?}", e), Some(("greedy-unexpected-error", format!("{:?}", e)))),
+        Caught::Panic(m) => {
+            let sig = panic_sig(&m);
+            (format!("panic {}", m), Some(("panic", format!("{} [{}]", m, sig))))
+        }
+        Caught::Hang => ("hang".into(), Some(("hang", "watchdog".into()))),
+    };
+    (out, verdict, nontrivial)
+}
+
+fn run_kk(k: usize, cmp_loads: bool, ws: &[i64], p0: &[usize]) -> (String, Verdict, bool) {
+    let mut p = p0.to_vec();
+    let v: Vec<i64> = ws.to_vec();
+    let res = catch(|| coupe::KarmarkarKarp { part_count: k }.partition(&mut p, v));
+    let lens_match = ws.len() == p0.len();
+    let n = ws.len();
+    let nontrivial = lens_match && n >= 2 && k >= 2;
+    let kk1 = k.max(1);
+    let (out, verdict): (String, Verdict) = match res {
+        Caught::Ok(Ok(())) => {
+            let mut v = None;
+            if !lens_match {
+                v = Some(("kk-len-mismatch-ok", "Ok despite a length mismatch".to_string()));
+            } else if let Some(loads) = part_loads(ws, &p, kk1) {
+                if k < 2 || n < 2 {
+                    if p.iter().any(|&i| i != 0) {
+                        v = Some((
+                            "kk-trivial-not-zero",
+                            format!("part_count {} / {} weights but ids {:?}", k, n, p),
+                        ));
+                    }
+                } else {
+                    let hi = *loads.iter().max().unwrap();
+                    let lo = *loads.iter().min().unwrap();
+                    if k == 2 {
+                        // holds for all integers
+                        let r = residue(ws);
+                        if (loads[0] - loads[1]).abs() != r {
+                            v = Some((
+                                "kk2-diff-not-residue",
+                                format!("loads {} / {} but the differencing residue is {}", loads[0], loads[1], r),
+                            ));
+                        }
+                    }
+                    if v.is_none() && ws.iter().all(|&w| w >= 0) {
+                        let wmax = *ws.iter().max().unwrap();
+                        if hi - lo > wmax {
+                            v = Some((
+                                "kk-gap-exceeds-max",
+                                format!("loads {:?}: gap {} > largest weight {}", loads, hi - lo, wmax),
+                            ));
+                        }
+                    }
+                }
+            } else {
+                v = Some(("kk-id-out-of-range", format!("an id >= {} in {:?}", kk1, p)));
+            }
+            let out = if cmp_loads {
+                // tie-invariant observable: loads of parts 0..max(k,1), ascending; ids out of
+                // range are left out of the sums (flagged above)
+                let mut l = vec![0i64; kk1];
+                for (w, &i) in ws.iter().zip(&p) {
+                    if i < kk1 {
+                        l[i] += *w;
+                    }
+                }
+                l.sort();
+                format!("ok loads {}", join(&l))
+            } else {
+                format!("ok ids {}", join(&p))
+            };
+            (out, v)
+        }
+        Caught::Ok(Err(coupe::Error::InputLenMismatch { .. })) => {
+            let v = if lens_match {
+                Some(("kk-spurious-lenmismatch", "InputLenMismatch on matching lengths".to_string()))
+            } else {
+                None
+            };
+            ("lenmismatch".to_string(), v)
+        }
+        Caught::Ok(Err(e)) => (format!("err {:?}", e), Some(("kk-unexpected-error", format!("{:?}", e)))),
+        Caught::Panic(m) => {
+            let sig = panic_sig(&m);
+            (format!("panic {}", m), Some(("panic", format!("{} [{}]", m, sig))))
+        }
+        Caught::Hang => ("hang".into(), Some(("hang", "watchdog".into()))),
+    };
+    (out, verdict, nontrivial)
+}
+
+// ------------------------------------------------------------------ generator
+
+/// Emit one KarmarkarKarp case; `cmp` is decided here (never in `run_op`).
+/// Returns `Some(exact ids asked for)` for a k-way case where that is a real decision.
+fn emit_kk(ctx: &mut Ctx, k: usize, ws: &[i64], p: &[usize]) -> Option<bool> {
+    let decisive = k >= 3 && ws.len() >= 2 && ws.len() == p.len();
+    let (sens, by_id) = if decisive { kk_tie_sensitive_why(ws, k) } else { (false, false) };
+    if decisive {
+        // the share of tie-free k-way cases (exact ids) must stay visible
+        ctx.count(if sens { "kk_cmp_loads" } else { "kk_cmp_ids" });
+        if by_id {
+            ctx.count("kk_cmp_loads_renamed_id_in_heap_tie");
+        }
+    } else {
+        ctx.count("kk_deterministic_ids");
+    }
+    let op = kk_op(k, sens, ws, p);
+    run_op(ctx, &op);
+    if decisive {
+        Some(!sens)
+    } else {
+        None
+    }
+}
+
+fn emit_greedy(ctx: &mut Ctx, float: bool, k: usize, ws: &[i64], p: &[usize]) {
+    let op = greedy_op(float, k, ws, p);
+    run_op(ctx, &op);
+}
+
+const SHAPES: [&str; 9] =
+    ["small", "wide", "ties", "huge", "dominant", "all_equal", "all_zero", "distinct", "pow2"];
+
+fn weights(ctx: &mut Ctx, shape: usize, n: usize) -> Vec<i64> {
+    match shape {
+        0 => (0..n).map(|_| ctx.rng.range(0, 9)).collect(),
+        1 => (0..n).map(|_| ctx.rng.range(0, 1000)).collect(),
+        2 => (0..n).map(|_| ctx.rng.range(1, 3)).collect(),
+        3 => (0..n).map(|_| ctx.rng.range(0, 1_000_000_000)).collect(),
+        4 => {
+            // one dominant element
+            let mut v: Vec<i64> = (0..n).map(|_| ctx.rng.range(0, 20)).collect();
+            if n > 0 {
+                let i = ctx.rng.usize(n);
+                v[i] = ctx.rng.range(100, 5000);
+            }
+            v
+        }
+        5 => {
+            let w = ctx.rng.range(1, 50);
+            vec![w; n]
+        }
+        6 => vec![0; n],
+        7 => {
+            // all distinct: a shuffled range with a random stride
+            let start = ctx.rng.range(0, 20);
+            let stride = ctx.rng.range(1, 7);
+            let mut v: Vec<i64> = (0..n as i64).map(|i| start + stride * i).collect();
+            ctx.rng.shuffle(&mut v);
+            v
+        }
+        _ => (0..n).map(|_| 1i64 << ctx.rng.usize(31)).collect(),
+    }
+}
+
+fn initial_array(ctx: &mut Ctx, m: usize) -> Vec<usize> {
+    if ctx.rng.chance(9, 10) {
+        vec![FILL; m]
+    } else {
+        ctx.count("initial_array_garbage");
+        (0..m).map(|_| *ctx.rng.pick(&[0usize, 1, 2, 7, 1000, FILL])).collect()
+    }
+}
+
+pub fn generate(ctx: &mut Ctx) {
+    // 1. exhaustive sub-space: every vector over 0..=alpha up to length maxlen, every k in 1..=kmax
+    let (alpha, maxlen, kmax) = if ctx.quick() { (3i64, 4usize, 4usize) } else { (4, 6, 4) };
+    for len in 0..=maxlen {
+        let mut v = vec![0i64; len];
+        let p = vec![FILL; len];
+        loop {
+            for k in 1..=kmax {
+                ctx.count("exhaustive_ops");
+                emit_greedy(ctx, false, k, &v, &p);
+                if k >= 2 {
+                    ctx.count("exhaustive_ops");
+                    emit_greedy(ctx, true, k, &v, &p);
+                }
+                ctx.count("exhaustive_ops");
+                let _ = emit_kk(ctx, k, &v, &p);
+            }
+            // next vector
+            let mut i = 0;
+            while i < len {
+                if v[i] < alpha {
+                    v[i] += 1;
+                    break;
+                }
+                v[i] = 0;
+                i += 1;
+            }
+            if i == len {
+                break;
+            }
+        }
+    }
+    ctx.notes.push(format!(
+        "exhaustive sub-space: all weight vectors over 0..={} of length 0..={} x part counts 1..={} x (Greedy on i64, Greedy on f64 for k >= 2, KarmarkarKarp)",
+        alpha, maxlen, kmax
+    ));
+
+    // 2. random vectors in nine shapes
+    let nmax = if ctx.quick() { 16 } else { 24 };
+    for _ in 0..ctx.budget(3000, 100000) {
+        // mostly 4..=nmax weights, tiny vectors (0..=3) in one case out of seven
+        let n = if ctx.rng.chance(1, 7) { ctx.rng.usize(4) } else { 4 + ctx.rng.usize(nmax - 3) };
+        let shape = ctx.rng.usize(SHAPES.len());
+        ctx.count(&format!("shape_{}", SHAPES[shape]));
+        let ws = weights(ctx, shape, n);
+        // part count: mostly 2..=6, sometimes 1, 7..=12, or more parts than weights
+        let mut k = match ctx.rng.usize(20) {
+            0 => 1,
+            1..=15 => 2 + ctx.rng.usize(5),
+            16..=17 => 7 + ctx.rng.usize(6),
+            _ => n + 1 + ctx.rng.usize(4),
+        };
+        let p = initial_array(ctx, n);
+        match ctx.rng.usize(20) {
+            0..=4 => {
+                ctx.count("random_greedy_i64");
+                ctx.count(&k_class(k, n));
+                emit_greedy(ctx, false, k, &ws, &p);
+            }
+            5..=8 => {
+                ctx.count("random_greedy_f64");
+                ctx.count(&k_class(k, n));
+                emit_greedy(ctx, true, k, &ws, &p);
+            }
+            9..=13 => {
+                ctx.count("random_kk_two_way");
+                let _ = emit_kk(ctx, 2, &ws, &p);
+            }
+            _ => {
+                if k < 3 {
+                    k = 3 + ctx.rng.usize(4);
+                }
+                ctx.count("random_kk_k_way");
+                ctx.count(&k_class(k, n));
+                match emit_kk(ctx, k, &ws, &p) {
+                    Some(true) => ctx.count("random_kk_k_way_exact_ids"),
+                    Some(false) => ctx.count("random_kk_k_way_sorted_loads"),
+                    None => {}
+                }
+            }
+        }
+    }
+
+    // 3. malformed / edge stream
+    for _ in 0..ctx.budget(100, 1000) {
+        let algo = ctx.rng.usize(3); // 0 greedy i64, 1 greedy f64, 2 kk
+        let kind = ctx.rng.usize(6);
+        let (k, ws, p): (usize, Vec<i64>, Vec<usize>) = match kind {
+            0 | 1 => {
+                // length mismatch, n = 0 and m = 0 included, one part and several
+                ctx.count("edge_len_mismatch");
+                let n = ctx.rng.usize(6);
+                let mut m = ctx.rng.usize(6);
+                if m == n {
+                    m = if ctx.rng.chance(1, 2) { n + 1 } else { n.saturating_sub(1) };
+                    if m == n {
+                        m = n + 2;
+                    }
+                }
+                let k = *ctx.rng.pick(&[0usize, 1, 1, 2, 2, 3, 5]);
+                let ws = (0..n).map(|_| ctx.rng.range(0, 9)).collect();
+                let p = if ctx.rng.chance(1, 2) { vec![FILL; m] } else { vec![7; m] };
+                (k, ws, p)
+            }
+            2 => {
+                ctx.count("edge_k0");
+                let n = ctx.rng.usize(6);
+                (0, (0..n).map(|_| ctx.rng.range(0, 9)).collect(), initial_array(ctx, n))
+            }
+            3 => {
+                ctx.count("edge_k1");
+                let n = ctx.rng.usize(6);
+                (1, (0..n).map(|_| ctx.rng.range(0, 9)).collect(), initial_array(ctx, n))
+            }
+            4 => {
+                ctx.count("edge_n01");
+                let n = ctx.rng.usize(2);
+                let k = 2 + ctx.rng.usize(4);
+                (k, (0..n).map(|_| ctx.rng.range(0, 9)).collect(), initial_array(ctx, n))
+            }
+            _ => {
+                // negative weights: outside the property's quantifier; correspondence
+                // (plus the LPT and residue identities, which hold for all integers)
+                ctx.count("edge_negative_weights");
+                let n = 2 + ctx.rng.usize(7);
+                let k = 2 + ctx.rng.usize(4);
+                (k, (0..n).map(|_| ctx.rng.range(-9, 9)).collect(), vec![FILL; n])
+            }
+        };
+        match algo {
+            0 => emit_greedy(ctx, false, k, &ws, &p),
+            // negative weights: i64 only
+            1 if kind != 5 => emit_greedy(ctx, true, k, &ws, &p),
+            1 => emit_greedy(ctx, false, k, &ws, &p),
+            _ => {
+                let _ = emit_kk(ctx, k, &ws, &p);
+            }
+        }
+    }
+}
+
+fn k_class(k: usize, n: usize) -> String {
+    let c = if k > n {
+        "k_gt_n"
+    } else if k <= 1 {
+        "k_1"
+    } else if k <= 6 {
+        "k_2_6"
+    } else {
+        "k_7_12"
+    };
+    format!("random_{}", c)
 }
